@@ -296,6 +296,10 @@ class Sym:
 
     __hash__ = None
 
+    def astype(s, dtype=None, **kw):
+        # NumPy scalar API (np.float64.astype): a real stays a real
+        return s
+
     def __bool__(s):
         # truthiness as for a Python/NumPy number (`if x:`, ndarray.any()/all() on object arrays): x != 0, a branch when symbolic
         if s.c is not None:
